@@ -462,6 +462,13 @@ fn check_lu<T: RealNumber>(cx: &Cx, at: &DenseMatrix<T>, rhs: &[Rhs]) {
     } else if (0..n).any(|i| p[i][i] != 1.0) {
         count("lu_pivoted");
     }
+    // partial pivoting: the pivot is a largest entry of its column, hence every multiplier is a
+    // quotient x/y of floats with |x| <= |y| and (correct rounding is monotone) |L_ij| <= 1 exactly.
+    // A wrong pivot choice shows here directly, before it shows as element growth.
+    let lmax = l.iter().enumerate().flat_map(|(i, r)| r.iter().take(i).map(|x| x.abs())).fold(0.0f64, f64::max);
+    if lmax > 1.0 + 4.0 * cx.eps {
+        cx.viol("lu.factor", "L-entry-above-1", || format!("max|L_ij| = {:e} > 1: the pivot is not a largest entry of its column (partial pivoting); L={} U={} P={}", lmax, fmt_mat_short(&l), fmt_mat_short(&u), fmt_mat_short(&p)));
+    }
     if ok {
         let d = util::lu_defect_max(&p, a, &l, &u);
         let tol = C_LU * cx.k * cx.eps * cx.amax;
